@@ -79,6 +79,10 @@ func (p *Projector) Feed(e mem.Ev) {
 	if e["k"] == "x-global" && p.Proj != nil && !p.Proj.Global {
 		return
 	}
+	if e["k"] == "x-parseparams" {
+		p.Out = append(p.Out, M{"k": "x-parseparams", "toks": Clean(e["toks"]), "n": e["n"], "allzero": e["allzero"]})
+		return
+	}
 	if p.SkipPre && !p.preDone {
 		switch e["k"] {
 		case "send":
@@ -197,7 +201,9 @@ func (p *Projector) flushPartial() {
 // Finish flushes a trailing partial frame.
 func (p *Projector) Finish() {
 	if p.SkipPre && !p.preDone {
-		p.Out = append(p.Out, M{"k": "dead"})
+		if p.preMsg != nil { // a session was attempted and never became ready
+			p.Out = append(p.Out, M{"k": "dead"})
+		}
 		return
 	}
 	p.flushPartial()
